@@ -511,7 +511,14 @@ class HostConnection(object):
             conn = self._session.cluster.connection_factory(self.host.endpoint, on_orphaned_stream_released=self.on_orphaned_stream_released)
             if self._keyspace:
                 conn.set_keyspace_blocking(self._keyspace)
-            self._connection = conn
+            with self._lock:
+                is_shutdown = self.is_shutdown
+                if not is_shutdown:
+                    self._connection = conn
+            if is_shutdown:
+                # the pool was shut down while the replacement was being opened
+                conn.close()
+                return
         except Exception:
             log.warning("Failed reconnecting %s. Retrying." % (self.host.endpoint,))
             self._session.submit(self._replace, connection)
